@@ -28,7 +28,8 @@ RULE = {
             "strings up to 300 bytes.  non-trivial = the header fields are in range / the frame decodes"),
     "C06": ("[tcp/ascii] streams of 1-4 mixed valid frames (both decoder directions) cut into chunks: ALL cut sets "
             "of streams <= 14 bytes, every single cut and every double cut of longer streams, random k-cuts, "
-            "byte-at-a-time, empty reads interspersed; unit filter varied (single, listed, 0/0xFF, foreign unit "
+            "byte-at-a-time, empty reads interspersed; frames at the size extremes (PDU 1, 2, 252, 253 bytes) cut behind the "
+            "header, in the middle and just before the end; unit filter varied (single, listed, 0/0xFF, foreign unit "
             "in the stream).  distinct = distinct (stream, chunking, filter)"),
     "C07": ("[tcp/ascii] valid frames of several message types corrupted by every single-bit flip, double-bit flips "
             "(all for frames <= 24 bytes in the thorough tier, sampled otherwise), byte substitution at every "
@@ -77,19 +78,22 @@ MANIFEST_PART = {
                      "bytes and the header carries exactly those values (C07_gate_ascii); whenever the socket "
                      "checkFrame accepts, the MBAP length is >= 2 and the PDU is exactly the next len-1 buffered bytes "
                      "(C07_gate_tcp); a change of any single byte / hex character breaks the LRC equation "
-                     "(C07_lrc_single_char). Every bit flip, substitution, deletion, insertion and truncation of real "
+                     "(C07_lrc_single_char); LOOP LEVEL: every element of the delivery list of a receive call, from any state, "
+                     "is justified by such a span of buffer++chunk (C07_deliveries_ascii; C07_deliveries_tcp_partial "
+                     "with the error-path disjunct). Every bit flip, substitution, deletion, insertion and truncation of real "
                      "frames is replayed against the code and judged by a reference receiver written in Coq."),
             "note": "Open: TCP error path delivers a bogus message from a 1..7-byte buffer (C07_tcp_errpath_refuted; same region as C06)."},
     "C11": {"text": ("ASCII half: from the synchronised state every read of whole valid frames, one or several per read, "
                      "is delivered and ends synchronised (C11_after_sync_ascii); arbitrary cutting never loses a frame "
                      "(C11_backlog_ascii); the scan loop terminates from any state on any input "
                      "(C11_no_fuel_out_ascii); a raising call followed by the handlers' reset is synchronised "
-                     "(C11_recover_ascii_handler). Garbage prefixes of eight kinds followed by 70+ valid frames are "
+                     "(C11_recover_ascii_handler); from ANY state (arbitrary garbage) one read of valid frames ends "
+                     "synchronised unless it raises (C11_recover_ascii_partial; C11_recover_ascii with the handler "
+                     "reset, no hypothesis). Garbage prefixes of eight kinds followed by 70+ valid frames are "
                      "replayed against the code: every frame later than two maximum-size frames after the garbage must "
                      "be delivered, backlog bounded."),
             "note": ("Open: a valid-LRC frame whose PDU the decoder rejects stays buffered forever at the bare framer "
-                     "(C11_ascii_stuck_refuted); recovery from arbitrary garbage is shown by correspondence, not by a "
-                     "universal theorem.")},
+                     "(C11_ascii_stuck_refuted) - the only hypothesis of C11_recover_ascii_partial.")},
 }
 
 KINDS = {"tcp": "KTcp", "ascii": "KAscii", "tls": "KTls"}
